@@ -373,6 +373,7 @@ PROPS = {
                              'a truncated but syntactically readable JCF file may be rejected or read up to the cut (both allowed); index errors must be rejected',
                              'sanitizer findings are observed in the ASan/UBSan build only']),
     'C19': dict(level='model_checking', reasons=ALG_REASONS | {'padding'}, jobs=c19_jobs, mc=lambda tier: [mcjob('MC_Gray', workers=16)],
+                coverage_extra={'exhaustive': True, 'exhaustive_scope': 'MC_Gray enumerates every k = 1..16 and every one of the 2^k entries; the code book dumped from the library is compared entry by entry for all k; masks: all 65 lengths x all admissible offsets; parity/bit reversal: complete single-bit basis (linear maps)'},
                 assumptions=['MC_Gray is exhaustive for k = 1..16 (the complete code book)', 'parity, bit reversal, spread/shrink are checked on complete single-bit bases plus random words',
                              'the dumped tables are the ones the library uses (read from m4ri_codebook after m4ri_init)']),
     'C20': dict(level='fault_enumeration', reasons={'fault_free_run_failed', 'not_controlled_abort', 'positions_not_all_injected', 'crash'}, jobs=c20_jobs,
@@ -636,6 +637,7 @@ def run_property(prop, tier, seed):
         'internal_routines_reached': reached,
     }
     res['coverage'].update(extra_cov)
+    res['coverage'].update(P.get('coverage_extra', {}))
     if P['level'] == 'other':
         res['coverage']['explanation'] = P.get('explanation', 'spec-enumerated executions observed with sanitizer instrumentation; abort discipline and allocation balance judged by TLC')
     return res
